@@ -400,7 +400,7 @@ def check_oblique(rep, sc, rng, idx, threads):
     lbox = 1.0
     f = lbox / 32.0
     dg, vec = build_group(sc, lbox)
-    normals = [(1, 1, 1), (1, -2, 3), (0, 1, 1), (2, 0, 1), (1, 1, 0), (-1, 3, 0.5), (0, 0, 1)]
+    normals = [(1, 1, 1), (1, -2, 3), (0, 1, 1), (2, 0, 1), (1, 1, 0), (-1, 3, 0.5), (0, 0, 1), (1, -1, 0), (-3, 3, 0), (0, 1, 0)]
     nrm = normals[idx % len(normals)]
     nx = sc["nx"] * 2
     origin = [sc["origin"][d] * f for d in range(3)]
